@@ -8,9 +8,9 @@ from . import common as C
 
 HEADER = 'From WM Require Import Base.Prelude Router.Close Router.CloseMonitor Corr.C06.\n'
 # which variant of the model corresponds to the code in the repo (flipped by the fix: commits)
-FIX5 = False
-FIX6 = False
-FIX12 = False
+FIX5 = True
+FIX6 = True
+FIX12 = True
 
 def hno(s): return int(s[1:])
 
@@ -47,6 +47,17 @@ def map_scenario(sc):
     extra_c = [100]
     pump_closed = set(); pump_done = set(); pubclose_seen = set()
     pump_holds = {}; delivered_early = set()
+    # a NEGATIVE observation (the poll of routersCloseCh saw it open) is stamped after the fact and can be overtaken by
+    # the close and its observers: its model step is placed as early as the log allows = right after the same goroutine's
+    # preceding stamp (ctx_done)
+    early_poll = set()
+    hc_stamps = [e for e in ev if e['p'].startswith('router.handler.handleclose.')]
+    byg = {}
+    for e in hc_stamps: byg.setdefault(e['g'], []).append(e)
+    for g, es in byg.items():
+        for a, b in zip(es, es[1:]):
+            if a['p'].endswith('.ctx_done') and b['p'].endswith('.not_closing'):
+                early_poll.add(a['seq'])
     sig_closer = [None]; sig_done = [False]
     def lab(l, o='ONone'): L.append((l, o))
     def closer_of(e):
@@ -122,10 +133,11 @@ def map_scenario(sc):
             lab('LHcClosing %d' % hno(k[0]))
         elif p == 'router.handler.handleclose.ctx_done':
             lab('LHcCtx %d' % hno(k[0]))
+            if seq in early_poll: lab('LHc %d' % hno(k[0]), 'OClosing false')
         elif p == 'router.handler.handleclose.closing_after_ctx':
             lab('LHc %d' % hno(k[0]), 'OClosing true')
         elif p == 'router.handler.handleclose.not_closing':
-            lab('LHc %d' % hno(k[0]), 'OClosing false')
+            pass        # placed at the preceding ctx_done stamp (see early_poll)
         elif p == 'router.handler.handleclose.sub_closed':
             h = hno(k[0]); pump_close(h)
             if h not in pump_done: pump_done.add(h); lab('LPump %d' % h)
